@@ -426,7 +426,23 @@ def witness_D33():
     return out_key(a) != out_key(b), "cached callee: %r, uncached callee: %r" % (a, b)
 
 
+def witness_deep_chain():
+    """the traceback of a failure at the bottom of a LONG chain (300 nested formulas) lists every element with the line
+    it was executing (seeded/C17_r5: a traceback length limit cuts the frames the nodes are paired with)"""
+    n = 300
+    body = [["assign", ["ifpos", ["par", 0], ["call", 0, [["bin", "sub", ["par", 0], ["const", 1]]]], ["raise", "zero"]]]]
+    w = {"nspaces": 1, "maxdepth": 2 * n, "refs": [], "cells": [cell(0, body, nparams=1)]}
+    res = fw.run_driver("exec", [{"world": w, "ops": [["eval", 0, [n], "call"]]}])
+    ob = res[0]["obs"][-1]
+    exp = [[0, [k], 3] for k in range(n, -1, -1)]
+    bad = ob["out"][:2] != ["err", "zero"] or ob["tb"] != exp
+    first = next((i for i, (a, b) in enumerate(zip(ob["tb"] or [], exp)) if a != b), None)
+    return bad, "out %r, %d traceback entries, first differing entry %r: %r" % (
+        ob["out"], len(ob["tb"] or []), first, (ob["tb"] or [None] * (n + 1))[first] if first is not None else None)
+
+
 WITNESSES = {
+    "C17": [("deep_chain_lines", witness_deep_chain)],
     "C02": [("D20_caught_failure_no_dependency", witness_D20)],
     "C09": [("D33_uncached_none_unchecked", witness_D33)],
 }
